@@ -313,4 +313,343 @@ theorem unclosed_block_rejected (syn : Syntax) (tl : Text) (idx : Nat) (aft : Bo
     buildAux syn [] tl idx aft (f :: fs) top ex = .error ⟨⟨"No closing tag"⟩, f.startTok⟩ := by
   simp [buildAux]
 
+/-! ### The builder as a state machine: "rejected if and only if the tag grammar is violated"
+
+`stepTok` is one iteration of `buildAux` (one token), `runToks` the iteration over a token list; `buildAux_eq_run` shows
+that the builder *is* that iteration followed by the end-of-text test.  The grammar violations of the property are then
+statements about single steps: whatever valid text precedes it, the offending token makes compilation fail, with the
+error located at that token (or, for a block's attributes and a missing end tag, at the block's start tag). -/
+
+structure BState where
+  idx : Nat
+  aft : Bool
+  stack : List Frame
+  top : List Node
+  ex : List ExprUse
+
+def BState.init : BState := ⟨0, false, [], [], []⟩
+
+/-- one token -/
+def stepTok (syn : Syntax) (σ : BState) (p : Text × Tok) : Except Located BState :=
+  let lit := if σ.aft then skipEol p.1 else p.1
+  let ctx := σ.stack.head?.map (fun f => (f.cmd, f.sargs))
+  match tagRole syn p.2 ctx with
+  | .error e => .error ⟨e, σ.idx⟩
+  | .ok role =>
+    match role with
+    | .start cmd args =>
+      if cmd.isBlock then
+        let st := pushNodes (litNode lit) σ.stack σ.top
+        let fr : Frame := { cmd := cmd, sargs := args, startTok := σ.idx, done := [], curName := cmd.name, curArgs := args, cur := [] }
+        .ok ⟨σ.idx + 1, true, fr :: st.1, st.2, σ.ex⟩
+      else
+        match checkSimple cmd args with
+        | .error e => .error ⟨e, σ.idx⟩
+        | .ok b =>
+          let fmt := if syn = .epfs then p.2.fmt else ['s']
+          let st := pushNodes (litNode lit ++ [.simple cmd b fmt]) σ.stack σ.top
+          .ok ⟨σ.idx + 1, false, st.1, st.2, σ.ex ++ b.exprs⟩
+    | .cont name args =>
+      match σ.stack with
+      | [] => .error ⟨⟨"Unexpected tag"⟩, σ.idx⟩
+      | f :: fs =>
+        let body := ((litNode lit).reverse ++ f.cur).reverse
+        let f' := { f with done := f.done ++ [⟨f.curName, f.curArgs, body⟩], curName := name,
+                            curArgs := args, cur := [] }
+        .ok ⟨σ.idx + 1, true, f' :: fs, σ.top, σ.ex⟩
+    | .close _ =>
+      match σ.stack with
+      | [] => .error ⟨⟨"unexpected end tag"⟩, σ.idx⟩
+      | f :: fs =>
+        let body := ((litNode lit).reverse ++ f.cur).reverse
+        let secs := f.done ++ [⟨f.curName, f.curArgs, body⟩]
+        match checkBlock f.cmd (secs.map fun s => (s.tname, s.args)) with
+        | .error e => .error ⟨e, f.startTok⟩
+        | .ok b =>
+          let st := pushNodes [.block f.cmd b secs] fs σ.top
+          .ok ⟨σ.idx + 1, true, st.1, st.2, σ.ex ++ b.exprs⟩
+
+def runToks (syn : Syntax) : List (Text × Tok) → BState → Except Located BState
+  | [], σ => .ok σ
+  | p :: ps, σ =>
+    match stepTok syn σ p with
+    | .error e => .error e
+    | .ok σ' => runToks syn ps σ'
+
+/-- the end of the text: every block must have been closed -/
+def finish (tl : Text) (σ : BState) : Except Located Out :=
+  match σ.stack with
+  | f :: _ => .error ⟨⟨"No closing tag"⟩, f.startTok⟩
+  | [] => .ok ⟨(litNode (if σ.aft then skipEol tl else tl)).reverse ++ σ.top |>.reverse, σ.ex⟩
+
+/-- **the builder is the iteration of `stepTok`**, then `finish` -/
+theorem buildAux_eq_run (syn : Syntax) (tl : Text) : ∀ (ps : List (Text × Tok)) (σ : BState),
+    buildAux syn ps tl σ.idx σ.aft σ.stack σ.top σ.ex =
+      (match runToks syn ps σ with
+       | .error e => .error e
+       | .ok σ' => finish tl σ') := by
+  intro ps
+  induction ps with
+  | nil =>
+    intro σ
+    simp only [runToks, finish]
+    unfold buildAux
+    cases σ.stack <;> rfl
+  | cons p ps ih =>
+    intro σ
+    obtain ⟨lit, tk⟩ := p
+    unfold buildAux
+    simp only [runToks, stepTok]
+    cases hr : tagRole syn tk (σ.stack.head?.map (fun f => (f.cmd, f.sargs))) with
+    | error e => rfl
+    | ok role =>
+      cases role with
+      | start cmd args =>
+        simp only
+        by_cases hb : cmd.isBlock = true
+        · simp only [hb, if_true]
+          exact ih ⟨_, _, _, _, _⟩
+        · simp only [hb]
+          cases hc : checkSimple cmd args with
+          | error e => rfl
+          | ok b => exact ih ⟨_, _, _, _, _⟩
+      | cont name args =>
+        simp only
+        cases hs : σ.stack with
+        | nil => rfl
+        | cons f fs => exact ih ⟨_, _, _, _, _⟩
+      | close a =>
+        simp only
+        cases hs : σ.stack with
+        | nil => rfl
+        | cons f fs =>
+          simp only
+          cases hc : checkBlock f.cmd _ with
+          | error e => rfl
+          | ok b => exact ih ⟨_, _, _, _, _⟩
+
+theorem compile_eq_run (syn : Syntax) (src : Text) :
+    compile syn src =
+      (match runToks syn (tokens syn src).1 BState.init with
+       | .error e => .error e
+       | .ok σ => finish (tokens syn src).2 σ) := by
+  unfold compile
+  exact buildAux_eq_run syn (tokens syn src).2 (tokens syn src).1 BState.init
+
+theorem runToks_append (syn : Syntax) : ∀ (a b : List (Text × Tok)) (σ : BState),
+    runToks syn (a ++ b) σ =
+      (match runToks syn a σ with
+       | .error e => .error e
+       | .ok σ' => runToks syn b σ') := by
+  intro a
+  induction a with
+  | nil => intro b σ; rfl
+  | cons p a ih =>
+    intro b σ
+    simp only [List.cons_append, runToks]
+    cases stepTok syn σ p with
+    | error e => rfl
+    | ok σ' => exact ih b σ'
+
+private theorem stepTok_idx (syn : Syntax) (σ σ' : BState) (p : Text × Tok) (h : stepTok syn σ p = .ok σ') :
+    σ'.idx = σ.idx + 1 := by
+  unfold stepTok at h
+  simp only at h
+  split at h
+  · cases h
+  · split at h
+    · split at h
+      · cases h; rfl
+      · split at h
+        · cases h
+        · cases h; rfl
+    · split at h
+      · cases h
+      · cases h; rfl
+    · split at h
+      · cases h
+      · split at h
+        · cases h
+        · cases h; rfl
+
+/-- the state reached after a prefix of `n` valid tokens stands at token `n` -/
+theorem runToks_idx (syn : Syntax) : ∀ (ps : List (Text × Tok)) (σ σ' : BState),
+    runToks syn ps σ = .ok σ' → σ'.idx = σ.idx + ps.length := by
+  intro ps
+  induction ps with
+  | nil => intro σ σ' h; simp only [runToks, Except.ok.injEq] at h; subst h; simp
+  | cons p ps ih =>
+    intro σ σ' h
+    simp only [runToks] at h
+    cases hs : stepTok syn σ p with
+    | error e => rw [hs] at h; cases h
+    | ok σ₁ =>
+      rw [hs] at h
+      have := ih σ₁ σ' h
+      rw [this, stepTok_idx syn σ σ₁ p hs]
+      simp; omega
+
+/-- **Accepted iff the grammar is respected**: a token list compiles exactly when every token is a legal step and no block
+is open at the end. -/
+theorem accepted_iff (syn : Syntax) (ps : List (Text × Tok)) (tl : Text) :
+    (∃ out, buildAux syn ps tl 0 false [] [] [] = .ok out) ↔
+      ∃ σ, runToks syn ps BState.init = .ok σ ∧ σ.stack = [] := by
+  have := buildAux_eq_run syn tl ps BState.init
+  simp only [BState.init] at this
+  rw [this]
+  cases hr : runToks syn ps BState.init with
+  | error e => simp [BState.init] at hr ⊢; simp [hr]
+  | ok σ =>
+    simp only [BState.init] at hr
+    simp only [hr, finish]
+    cases hs : σ.stack with
+    | nil => simp [hs]
+    | cons f fs => simp [hs]
+
+/-- a failing step anywhere makes the whole compilation fail with that step's error: the common form of the rejection
+theorems below (`pre` = the tokens before the offending one, all legal) -/
+theorem step_error_rejects (syn : Syntax) (pre rest : List (Text × Tok)) (p : Text × Tok) (tl : Text)
+    (σ : BState) (e : Located) (hpre : runToks syn pre BState.init = .ok σ) (hstep : stepTok syn σ p = .error e) :
+    buildAux syn (pre ++ p :: rest) tl 0 false [] [] [] = .error e := by
+  have := buildAux_eq_run syn tl (pre ++ p :: rest) BState.init
+  simp only [BState.init] at this hpre
+  rw [this, runToks_append]
+  simp only [BState.init, hpre, runToks, hstep]
+
+/-- **unknown tag**: a start tag whose name is no command (and no continuation of the open block) is rejected as
+"Unexpected tag", located at that tag — `<dtml-…>` / `<!--#…-->` syntax -/
+theorem unknown_tag_rejected (pre rest : List (Text × Tok)) (lit tl : Text) (tk : Tok) (σ : BState)
+    (hpre : runToks .html pre BState.init = .ok σ) (hne : tk.isEnd = false)
+    (hunk : Cmd.ofName (String.ofList tk.name) = none)
+    (hcont : ∀ f, σ.stack.head? = some f → String.ofList tk.name ∉ f.cmd.continuations.getD []) :
+    buildAux .html (pre ++ (lit, tk) :: rest) tl 0 false [] [] [] = .error ⟨⟨"Unexpected tag"⟩, pre.length⟩ := by
+  have hidx := runToks_idx .html pre _ σ hpre
+  apply step_error_rejects .html pre rest (lit, tk) tl σ _ hpre
+  simp only [stepTok, tagRole, hne]
+  cases hs : σ.stack.head? with
+  | none => simp [hunk, hidx, BState.init]
+  | some f =>
+    have := hcont f hs
+    simp [this, hunk, hidx, BState.init]
+
+/-- **end tag without matching start**: an end tag when no block is open, or naming another block than the innermost
+open one, is rejected as "unexpected end tag", located at that end tag -/
+theorem end_without_start_rejected (pre rest : List (Text × Tok)) (lit tl : Text) (tk : Tok) (σ : BState)
+    (hpre : runToks .html pre BState.init = .ok σ) (he : tk.isEnd = true)
+    (hmis : ∀ f, σ.stack.head? = some f → String.ofList tk.name ≠ f.cmd.name) :
+    buildAux .html (pre ++ (lit, tk) :: rest) tl 0 false [] [] [] =
+      .error ⟨⟨"unexpected end tag"⟩, pre.length⟩ := by
+  have hidx := runToks_idx .html pre _ σ hpre
+  apply step_error_rejects .html pre rest (lit, tk) tl σ _ hpre
+  simp only [stepTok, tagRole, he]
+  cases hs : σ.stack.head? with
+  | none => simp [hidx, BState.init]
+  | some f =>
+    have := hmis f hs
+    simp [this, hidx, BState.init]
+
+/-- **missing end tag**: when the text ends while a block is open, compilation fails with "No closing tag", located at
+the start tag of the innermost open block -/
+theorem missing_end_tag_rejected (syn : Syntax) (ps : List (Text × Tok)) (tl : Text) (σ : BState) (f : Frame)
+    (fs : List Frame) (hrun : runToks syn ps BState.init = .ok σ) (hopen : σ.stack = f :: fs) :
+    buildAux syn ps tl 0 false [] [] [] = .error ⟨⟨"No closing tag"⟩, f.startTok⟩ := by
+  have := buildAux_eq_run syn tl ps BState.init
+  simp only [BState.init] at this hrun
+  rw [this]
+  simp only [BState.init, hrun, finish, hopen]
+
+/-- **misplaced continuation tag**: `elif`, `except` and `finally` are no commands of their own, so outside a block that
+lists them as continuations they are rejected ("Unexpected tag") — a special case of `unknown_tag_rejected`; and a
+continuation tag can never be accepted with no block open -/
+theorem misplaced_continuation_rejected (pre rest : List (Text × Tok)) (lit tl : Text) (tk : Tok) (σ : BState)
+    (hpre : runToks .html pre BState.init = .ok σ) (hne : tk.isEnd = false)
+    (hname : String.ofList tk.name = "elif" ∨ String.ofList tk.name = "except" ∨ String.ofList tk.name = "finally")
+    (hcont : ∀ f, σ.stack.head? = some f → String.ofList tk.name ∉ f.cmd.continuations.getD []) :
+    buildAux .html (pre ++ (lit, tk) :: rest) tl 0 false [] [] [] = .error ⟨⟨"Unexpected tag"⟩, pre.length⟩ := by
+  apply unknown_tag_rejected pre rest lit tl tk σ hpre hne _ hcont
+  rcases hname with h | h | h <;> rw [h] <;> rfl
+
+/-- **attributes a simple tag does not accept**: when the constructor of a non-block tag (`var`, `call`, `return`)
+rejects its arguments (unknown or duplicate attribute, missing or contradictory name / expr …), compilation fails with
+that error, located at that tag -/
+theorem simple_attribute_error_rejected (syn : Syntax) (pre rest : List (Text × Tok)) (p : Text × Tok) (tl : Text)
+    (σ : BState) (cmd : Cmd) (args : Text) (e : PErr)
+    (hpre : runToks syn pre BState.init = .ok σ)
+    (hrole : tagRole syn p.2 (σ.stack.head?.map (fun f => (f.cmd, f.sargs))) = .ok (.start cmd args))
+    (hsimple : cmd.isBlock = false) (hbad : checkSimple cmd args = .error e) :
+    buildAux syn (pre ++ p :: rest) tl 0 false [] [] [] = .error ⟨e, pre.length⟩ := by
+  have hidx := runToks_idx syn pre _ σ hpre
+  apply step_error_rejects syn pre rest p tl σ _ hpre
+  simp only [stepTok, hrole, hsimple, hbad]
+  simp [hidx, BState.init]
+
+/-- **attributes a block tag does not accept** (incl. repeated `else`, batch-only options without a batch, a non-simple
+`prefix`: all decided by the block's constructor once its end tag is read): compilation fails with the constructor's
+error, located at the block's *start* tag -/
+theorem block_attribute_error_rejected (syn : Syntax) (pre rest : List (Text × Tok)) (p : Text × Tok) (tl : Text)
+    (σ : BState) (f : Frame) (fs : List Frame) (a : Text) (e : PErr)
+    (hpre : runToks syn pre BState.init = .ok σ) (hstack : σ.stack = f :: fs)
+    (hrole : tagRole syn p.2 (some (f.cmd, f.sargs)) = .ok (.close a))
+    (hbad : checkBlock f.cmd ((f.done ++ [(⟨f.curName, f.curArgs,
+        ((litNode (if σ.aft then skipEol p.1 else p.1)).reverse ++ f.cur).reverse⟩ : Section Node)]).map
+          fun (s : Section Node) => (s.tname, s.args)) = .error e) :
+    buildAux syn (pre ++ p :: rest) tl 0 false [] [] [] = .error ⟨e, f.startTok⟩ := by
+  apply step_error_rejects syn pre rest p tl σ _ hpre
+  simp only [stepTok, hstack, List.head?, Option.map, hrole, hbad]
+
+/-- **nothing else is ever reported**: every error of the builder is the error of one step — the tag-role error of a
+token (unknown tag, end tag without matching start), a constructor's attribute error, or the missing end tag at the end
+of the text.  With `accepted_iff` this is "rejected if and only if the tag grammar is violated". -/
+theorem rejection_classified (syn : Syntax) (ps : List (Text × Tok)) (tl : Text) (le : Located)
+    (h : buildAux syn ps tl 0 false [] [] [] = .error le) :
+    (∃ pre p rest σ, ps = pre ++ p :: rest ∧ runToks syn pre BState.init = .ok σ ∧ stepTok syn σ p = .error le) ∨
+    (∃ σ f fs, runToks syn ps BState.init = .ok σ ∧ σ.stack = f :: fs ∧ le = ⟨⟨"No closing tag"⟩, f.startTok⟩) := by
+  have hb := buildAux_eq_run syn tl ps BState.init
+  simp only [BState.init] at hb
+  rw [hb] at h
+  have gen : ∀ (qs : List (Text × Tok)) (σ : BState) (e : Located), runToks syn qs σ = .error e →
+      ∃ pre p rest σ', qs = pre ++ p :: rest ∧ runToks syn pre σ = .ok σ' ∧ stepTok syn σ' p = .error e := by
+    intro qs
+    induction qs with
+    | nil => intro σ e h; simp [runToks] at h
+    | cons q qs ih =>
+      intro σ e h
+      simp only [runToks] at h
+      cases hs : stepTok syn σ q with
+      | error e' =>
+        rw [hs] at h
+        simp only [Except.error.injEq] at h
+        subst h
+        exact ⟨[], q, qs, σ, rfl, rfl, hs⟩
+      | ok σ₁ =>
+        rw [hs] at h
+        obtain ⟨pre, p, rest, σ', h1, h2, h3⟩ := ih σ₁ e h
+        refine ⟨q :: pre, p, rest, σ', by simp [h1], ?_, h3⟩
+        simp only [runToks, hs]
+        exact h2
+  cases hr : runToks syn ps ⟨0, false, [], [], []⟩ with
+  | error e =>
+    rw [hr] at h
+    simp only [Except.error.injEq] at h
+    subst h
+    exact Or.inl (gen ps _ _ hr)
+  | ok σ =>
+    rw [hr] at h
+    simp only [finish] at h
+    cases hs : σ.stack with
+    | nil => rw [hs] at h; cases h
+    | cons f fs =>
+      rw [hs] at h
+      simp only [Except.error.injEq] at h
+      exact Or.inr ⟨σ, f, fs, hr, hs, h.symm⟩
+
+/-- non-vacuity: `</dtml-if>` alone, an unknown tag, an unclosed block, a second `else`, an unknown attribute -/
+example : (compile .html "a</dtml-if>".toList).toOption.isNone = true ∧
+    (compile .html "<dtml-foo>".toList).toOption.isNone = true ∧
+    (compile .html "<dtml-if x>a".toList).toOption.isNone = true ∧
+    (compile .html "<dtml-if x>a<dtml-else>b<dtml-else>c</dtml-if>".toList).toOption.isNone = true ∧
+    (compile .html "<dtml-var x bogus=1>".toList).toOption.isNone = true ∧
+    (compile .html "<dtml-if x>a<dtml-else>b</dtml-if>".toList).toOption.isSome = true := by
+  decide +kernel
+
 end DTML.Props.C06
